@@ -724,6 +724,20 @@ def call_ext(I, f: Ext, args, kw, node=None):
                 return v
             r = I.fresh("int", "ceil")
             I.assume(z3.And(z3.ToReal(r.e) >= v.e, z3.ToReal(r.e) - 1 < v.e))
+            # when the argument is a quotient a/b of integers with b > 0, state the same fact over the integers
+            # (r*b >= a and (r-1)*b < a): exact mathematics, saves the solver the real/integer bridge
+            e = v.e
+            if z3.is_app(e) and e.decl().kind() == z3.Z3_OP_DIV and e.num_args() == 2:
+                a_, b_ = e.arg(0), e.arg(1)
+                def as_int(t):
+                    if z3.is_app(t) and t.decl().kind() == z3.Z3_OP_TO_REAL:
+                        return t.arg(0)
+                    if z3.is_rational_value(t) and t.denominator_as_long() == 1:
+                        return z3.IntVal(t.numerator_as_long())
+                    return None
+                ai, bi = as_int(a_), as_int(b_)
+                if ai is not None and bi is not None and I.valid(bi > 0):
+                    I.assume(z3.And(r.e * bi >= ai, (r.e - 1) * bi < ai))
             return r
         import math
         return math.ceil(v)
